@@ -109,7 +109,9 @@ def build(tier, seed):
     for gtext, inputs in FORESTS:
         for w in inputs:
             # every forest sees a slice of the exhaustive histories (all of them over the corpus) and of the simulated ones
-            mine = hs[k::len(FORESTS) * 2] if tier == "quick" else hs
+            # (all 4-step histories on every forest is tens of gigabytes of recorded replies: every forest sees a quarter of them, every history
+            # is seen by four forests)
+            mine = hs[k::len(FORESTS) * 2] if tier == "quick" else hs[k % 4::4]
             jobs.append({"gtext": gtext, "input": w, "hists": mine, "origin": "det"})
             jobs.append({"gtext": gtext, "input": w, "hists": sims[k::7], "origin": "rand"})
             k += 1
